@@ -1,7 +1,7 @@
 """C06 — gamma-function family: Factorial (memo table), Binomial_Coefficient, GammaLn, Gamma, the regularised
 incomplete gamma functions P and Q with their three methods, Upper/Lower incomplete gamma, Inv_GammaP/Q.
 
-Case lines: single requests (fact, binom, binomhist, gammaln, gamma, gamrec, pq, gammaq, gammap, upper, lower, pser, qcf, qint, qmono, invp, invq;
+Case lines: single requests (fact, binom, binomhist, gammaln, gamma, gamrec, pq, gammaq, gammap, upper, lower, pser, qcf, qint, qintw, integw, qmono, invp, invq;
 they all run one after the other in the harness's worker process) and call histories
   seq m call_1 .. call_m     call = gammaln x | gamma x | gammaq x a | gammap x a | upper x a | lower x a | invp p a | invq q a | fact n | binom n k
 which the harness runs in ONE process that has called nothing before (forked from a server process started before any library call);
@@ -60,7 +60,19 @@ LEVEL_TEXT = ("Theorems (Coq, all inputs / all histories, about the Gallina mode
               "(for a <= 100: GammaQ and GammaP both answer, P > 0, Q < 1, k <= 153). "
               "The accuracy clause on the series side at EVERY integer shape a <= 100 and EVERY 0 < x < a+1 with explicit constants and no premise (C06_series_accuracy_integer_shape_partial): GammaP answers p with "
               "e^-T P/(1 + 2^-52 (a+155)) <= p <= e^T P, T = a 1e-14, P the true P(x,a) = (1/(a-1)!) RInt_0^x t^(a-1) e^-t in (0,1] (relative error about 1.06e-12 over the reals; partial: integer shapes, series side, no rounding). "
-              "NOT theorems: everything about rounding in double arithmetic (the theorems above are about the real-number model; the double evaluation is tied to it only by the bit-level correspondence run and judged by S3/S4); accuracy of GammaLn at non-integer arguments against the true ln Gamma; "
+              "Third part, theorems in EVERY arithmetic (any NumOps instance, so the IEEE doubles of the extracted program as they are, rounding / infinities / NaN included; no law of arithmetic used): "
+              "in every history of calls to the whole family each call gets bit for bit the answer of a fresh process and a repeated call the same answer (C06_call_history_independent_any_arithmetic, C06_call_repeatable_any_arithmetic); "
+              "Factorial in every call order answers the left-to-right product ((1*1)*2)..*n formed once by the arithmetic at hand, the table keeps entry k = that product and is only extended (C06_factorial_any_history_any_arithmetic), "
+              "and n! = n (n-1)! holds EXACTLY, as the one product Factorial(n-1)*n, from any two reachable tables (C06_factorial_recurrence_exact_any_arithmetic); "
+              "the fuel of the model's three loops is immaterial: an answer with some fuel is the answer with every larger fuel, the series / Lentz loops only answer or report exhausted fuel (C06_fuel_immaterial); "
+              "under the laws of a strict total order alone (non-NaN doubles) and 0 < 1 every answer of GammaQint is 1 - g with 0 <= g <= 1 in that order (C06_gammaq_int_clamped_in_any_order); "
+              "Halley's loop answers 0 at once on an iterate <= 0 (C06_inverse_underflow_returns_zero_any_arithmetic). "
+              "Integrate's diagnostics are in the model now (C06_Model2.v: the flag bool& warning of Adaptive_Simpson_Integration, std::isnan(result), GammaQint's count of panels that printed them; compared with the library's captured "
+              "std::cout on every run, ops qintw / integw): the extended model projects exactly onto the functions all other theorems are about, the counters count at most one per panel (C06_diagnostics_model_extends_model), "
+              "and on every cubic integrand no convergence warning is raised for any recursion floor, tolerance and order of limits (C06_integrate_no_warning_on_cubics, reals). "
+              "T-tie: Gamma, GammaQ (guards and choice of the method), GammaP, Upper_Incomplete_Gamma, Lower_Incomplete_Gamma, Inv_GammaQ are regenerated from clang's AST of src/Special_Functions.cpp on every run (coq/Gen_C06_Formulas.v) and "
+              "proved equal to the hand model for all arguments (C06_generated_Gamma_GammaQ_GammaP_Upper_Lower_InvGammaQ_is_model under the literal laws, C06_generated_is_model_over_the_reals): a changed comparison, guard, literal, operand order or callee there breaks a proof before any case is run. "
+              "NOT theorems: everything about rounding in double arithmetic beyond the any-arithmetic theorems of the third part (the analytic theorems are about the real-number model; the double evaluation is tied to it only by the bit-level correspondence run and judged by S3/S4); accuracy of GammaLn at non-integer arguments against the true ln Gamma; "
               "accuracy of the series at non-integer shapes, of the continued fraction and of the quadrature against the true P, Q; monotonicity in x; "
               "the range [0,1] for a <= 100 in floating point (and, over the reals, Q <= 1 on the continued-fraction side / P <= 1 on the series side at non-integer a); that the continued-fraction loop stops within its fuel; convergence of the Halley iteration of Inv_GammaP (inverse round trip); Pascal's rule and exactness of Binomial_Coefficient for n > 170. These clauses are covered by "
               "(a) kernel-certified samples: the library's doubles at generated points are proved by Coq-Interval to lie within the stated tolerance (1e-12 for a <= 100, 1e-3 above, absolute) of the closed form for integer a "
@@ -74,7 +86,9 @@ LEVEL_NOTE = ("Coq 8.16.1 kernel; theorems over R use the standard library's rea
               "certified samples and the theorem C06_lanczos_recurrence_partial additionally rest on Coq-Interval (primitive 63-bit integers through Bignums; files C06_Proofs_Lanczos1-3.v take about a minute of CPU each). Hand-written model tied by differential correspondence "
               "(extraction with ExtrOcamlBasic only); exp, log, sqrt, pow, floor are the same libm functions on both sides (modelled by exp, ln, sqrt, Rpower, Int_part in R). The two uncapped while loops carry a fuel of 100000 iterations "
               "and the panel loop of GammaQint a fuel of 64 in the model (exhaustion prints FUEL, never a value). The Lentz theorem carries the premises that no clamp |d|,|c| < FPMIN triggers and x+1-a <> 0. "
-              "Integrate / Adaptive_Simpson_Integration are modelled in C06_Model.v as far as GammaQint uses them (depth 20, warning output ignored).")
+              "Integrate / Adaptive_Simpson_Integration are modelled in C06_Model.v as far as GammaQint uses them (depth 20); their convergence flag and the isnan test in C06_Model2.v (the isinf test and the text of the diagnostics are not modelled). "
+              "T-tie: tools/cxx2gallina.py (clang AST -> Gallina) regenerates coq/Gen_C06_Formulas.v before the proofs are rebuilt; the tie lemmas assume LitLaws (integer literals 0, 1, 100 are the integers: exactly representable doubles). "
+              "The looping functions (GammaLn, GammaPser, GammaQcf, GammaQint, Inv_GammaP, Factorial, Binomial_Coefficient, Integrate) stay hand-written; the exact list is coverage/C06.md.")
 TRUSTED = ["S4 reference: Python decimal (60 digits) series for P(x,a) with a Stirling-series log-gamma, self-tested at import against closed forms (integer and half-integer a)",
            "S3: Coq-Interval 4.x (interval tactic) on generated goals; the closed form for integer a is tied to the integral definition by theorem C06_q_integer_closed_form"]
 ASSUMPTIONS = ["'agree to 1e-12 / 1e-3' is read as absolute error on P and Q (both lie in [0,1])",
@@ -82,6 +96,35 @@ ASSUMPTIONS = ["'agree to 1e-12 / 1e-3' is read as absolute error on P and Q (bo
                "(the source has no state besides the factorial table, so an answer inside a history is required to equal, bit for bit, the answer of a fresh process)",
                "'a few units in the last place' for Gamma/GammaLn/Binomial is read on the scale of the intermediate terms of GammaLn (slack 4*eps*sum|t_k| per evaluation, DESIGN 5.3), "
                "since Gamma = exp(GammaLn) cannot be better than eps*|GammaLn| relative"]
+
+# ------------------------------------------------------------------------------------------------ T-tie
+COQ = os.path.join(os.path.dirname(os.path.dirname(os.path.abspath(__file__))), "coq")
+
+
+def gen_functions():
+    """T-tie: the straight-line functions of the family (src/Special_Functions.cpp) that are regenerated from clang's AST on every run
+    (coq/Gen_C06_Formulas.v) and proved equal to the hand model in coq/C06_GenTie.v.  The looping functions they call (GammaLn, GammaQint,
+    GammaPser, GammaQcf, Inv_GammaP) are parameters of the generated terms; the tie lemmas instantiate them with the hand model's functions."""
+    sys.path.insert(0, os.path.join(os.path.dirname(COQ), "tools"))
+    import cxx2gallina as c
+    F, E, d = c.Fn, c.Ext, "double"
+    fns = [F("Gamma", [d], "g_Gamma"), F("GammaQ", [d, d], "g_GammaQ"), F("GammaP", [d, d], "g_GammaP"),
+           F("Upper_Incomplete_Gamma", [d, d], "g_Upper_Incomplete_Gamma"), F("Lower_Incomplete_Gamma", [d, d], "g_Lower_Incomplete_Gamma"),
+           F("Inv_GammaQ", [d, d], "g_Inv_GammaQ")]
+    exts = [E("GammaLn", [d], "gammaLn"), E("GammaQint", [d, d], "gammaQint"), E("GammaPser", [d, d], "gammaPser"), E("GammaQcf", [d, d], "gammaQcf"),
+            E("Inv_GammaP", [d, d], "inv_gammaP")]
+    return c, fns, exts
+
+
+def regenerate():
+    c, fns, exts = gen_functions()
+    try:
+        txt = c.translate_all(os.path.join(vbuild.REPO, "src", "Special_Functions.cpp"), fns, [os.path.join(vbuild.REPO, "include")], exts, False)
+    except c.Unsupported as e:
+        raise RuntimeError(f"tools/cxx2gallina.py cannot translate src/Special_Functions.cpp: {e}")
+    ch = c.write_if_changed(os.path.join(COQ, "Gen_C06_Formulas.v"), txt)
+    return "Gen_C06_Formulas.v regenerated from the current source" if ch else ""
+
 
 # ------------------------------------------------------------------------------------------------ reference
 _CTX = Context(prec=60, rounding=ROUND_HALF_EVEN, Emin=-999999999, Emax=999999999)
@@ -778,6 +821,22 @@ def generate(rng, tier):
         cs.append(Case(f"qcf {hx(xq)} {hx(a)}", ("method", "continued-fraction")))
         if rng.random() < 0.3:
             a2 = 10 ** rng.uniform(0.5, 4); cs.append(Case(f"qint {hx(_rand_x(rng, a2))} {hx(a2)}", ("method", "quadrature")))
+    # ---- the quadrature branch together with the diagnostics of Integrate (coq/C06_Model2.v): GammaQint's answer and the number of panels whose
+    #      Integrate call reported "did not converge" / "Result is nan"; and single panels of GammaQint's integrand handed to Integrate with a recursion
+    #      floor 0 .. 8 (and the 20 GammaQint uses), so that both outcomes of  bottom <= 0 && fabs(S2 - S) > 15 epsilon  are visited
+    for _ in range(2500 if big else 70):
+        a2 = _near(rng, 100.0) if rng.random() < 0.15 else 10 ** rng.uniform(2, 4)
+        a2 = min(max(a2, math.nextafter(100.0, math.inf)), 1e4)
+        cs.append(Case(f"qintw {hx(_rand_x(rng, a2))} {hx(a2)}", ("method", "quadrature-diagnostics")))
+    for _ in range(2500 if big else 90):
+        a2 = 10 ** rng.uniform(2, 4); w = math.sqrt(a2); lo = max(0.0, a2 - 1 - 10 * w)
+        t1 = lo + w * rng.randint(0, 19) if rng.random() < 0.8 else lo + w * rng.uniform(0, 20)
+        t2 = t1 + w * (1.0 if rng.random() < 0.7 else rng.random())
+        fx = f"exp + - c {hx(-math.lgamma(a2))} x * log x c {hx(a2 - 1.0)}"
+        cs.append(Case(f"integw {fx} {hx(t1)} {hx(t2)} {hx(1e-8)} {rng.choice([0, 0, 1, 2, 3, 4, 6, 8, 20])}", ("integrate", "warning-branch")))
+    for fx, lo, hi in [("sqrt - x c 0x1p+0", 0.0, 2.0), ("log x", -1.0, 1.0), ("c 0x1p+0", 0.0, 1.0), ("x", 1.0, 1.0), ("* x x", 2.0, 0.0), ("sqrt x", 0.0, 1.0), ("abs - x c 0x1p-2", 0.0, 1.0)]:
+        for d in (0, 1, 5, 20):
+            cs.append(Case(f"integw {fx} {hx(lo)} {hx(hi)} {hx(1e-8)} {d}", ("integrate", "warning-branch")))
     for x, a in [(5.0, 2.0), (3.0, 2.0), (1.0, 2.0), (20.0, 1.5), (101.0, 100.0), (2.0, 1.0)]:
         cs.append(Case(f"qcf {hx(x)} {hx(a)}", ("method", "continued-fraction")))
         cs.append(Case(f"gammaq {hx(x)} {hx(a)}", ("pq", "point")))
@@ -839,7 +898,7 @@ def nontrivial(c, io):
     if op in ("gamrec", "gammaln", "gamma"):
         x = float.fromhex(t[1]) if t[1] not in ("nan",) else math.nan
         return x > 100 or _rel_close(x, 1.0) or _rel_close(x, 2.0)
-    if op in ("pq", "gammaq", "gammap", "upper", "lower", "pser", "qcf", "qint"):
+    if op in ("pq", "gammaq", "gammap", "upper", "lower", "pser", "qcf", "qint", "qintw"):
         x, a = float.fromhex(t[1]), float.fromhex(t[2])
         if a <= 0: return False
         return _rel_close(x, a + 1) or _rel_close(a, 100.0) or (a > 100 and (_rel_close(x, a - 1 + 10 * math.sqrt(a)) or _rel_close(x, a - 1 - 10 * math.sqrt(a))))
@@ -1058,6 +1117,12 @@ def predicates(c, io):
             if x == math.floor(x) and x <= 23:     # Gamma(n) = (n-1)!
                 f = float(math.factorial(int(x) - 1))
                 if not (abs(g0 - f) <= (gl_slack(x) + 4 * EPS) * f): out.append(("gamma:factorial", f"Gamma({int(x)}) = {g0!r}, ({int(x)}-1)! = {f!r}"))
+    elif op == "qintw":      # GammaQint inside its domain of use (a > 100): a probability within 1e-3 of the reference
+        x, a = float.fromhex(t[1]), float.fromhex(t[2])
+        if ex or len(v) < 3: return [("gammaq:exit", f"GammaQint({x!r},{a!r}) exited inside the domain")]
+        P, Q, referr = ref_PQ(x, a); q = v[0]
+        if not (0.0 <= q <= 1.0): out.append(("gammaq:range:" + range_region(a, q), f"GammaQint(x={x!r}, a={a!r}) = {q!r} lies outside [0,1]"))
+        if not (abs(q - Q) <= acc_tol(a) + referr): out.append(("gammaq:accuracy:" + region(a), f"GammaQint(x={x!r}, a={a!r}) = {q!r}, reference {Q!r}: error {abs(q-Q):.3g} > {acc_tol(a):g}"))
     elif op in ("pq", "gammaq", "gammap", "upper", "lower"):
         x, a = float.fromhex(t[1]), float.fromhex(t[2])
         bad = (x < 0) or (a <= 0)
